@@ -127,7 +127,11 @@ def post : Ast → Ast
   | .leaf n => .leaf n
   | .null => .null
   | .ifThen c t => .ifThen c (post t)
-  | .loop v b => .loop v (post b)
+  | .loop v b =>
+    let b' := post b
+    match isNull b' with
+    | true => .null
+    | false => .loop v b'
   | .ite c t e =>
     let t' := post t
     let e' := post e
@@ -184,6 +188,46 @@ def noNull : Ast → Bool
 def noNullList : List Ast → Bool
   | [] => true
   | a :: as => noNull a && noNullList as
+end
+
+end Dagrt.Simplify
+
+namespace Dagrt.Simplify
+
+/-! `if` without `else` does not occur after pass 1 -/
+mutual
+def noIfThen : Ast → Bool
+  | .leaf _ => true
+  | .null => true
+  | .ifThen _ _ => false
+  | .ite _ t e => noIfThen t && noIfThen e
+  | .loop _ b => noIfThen b
+  | .block cs => noIfThenList cs
+def noIfThenList : List Ast → Bool
+  | [] => true
+  | a :: as => noIfThen a && noIfThenList as
+end
+
+/-- events issued by the generic walker `StructuredCodeGenerator.lower_node`;
+    a null node is the `ValueError` of its last branch -/
+inductive Ev where
+  | inst (n : Nat) | ifBegin (c : Cond) | elseBegin | ifEnd | forBegin (v : Nat) | forEnd (v : Nat)
+  deriving DecidableEq, Repr
+
+mutual
+def walk : Ast → Option (List Ev)
+  | .leaf n => some [.inst n]
+  | .null => none
+  | .ifThen c t => do let a ← walk t; some ([.ifBegin c] ++ a ++ [.ifEnd])
+  | .ite c t e => do
+      let a ← walk t
+      let b ← walk e
+      some ([.ifBegin c] ++ a ++ [.elseBegin] ++ b ++ [.ifEnd])
+  | .loop v b => do let a ← walk b; some ([.forBegin v] ++ a ++ [.forEnd v])
+  | .block cs => walkList cs
+def walkList : List Ast → Option (List Ev)
+  | [] => some []
+  | a :: as => do let x ← walk a; let y ← walkList as; some (x ++ y)
 end
 
 end Dagrt.Simplify
